@@ -144,12 +144,14 @@ def run(ck):
     for c in prog.class_list:
         if c.get("dependent"):
             continue
+        if not ((c.get("file") or "").startswith(facts.REPO + "/src/") or (c.get("file") or "").startswith(facts.REPO + "/include/")):
+            continue    # test fixtures with their own queues are not part of the library
         for fld in c["fields"]:
             if strip_tmpl(fld.get("rec") or "") == "Pistache::PollableQueue":
                 qfields[fld["q"]] = c["name"]
     ck.require(len(qfields) >= 5, "expected >=5 PollableQueue members, found %d" % len(qfields))
     consumers = {}
-    for f in prog.funcs.values():
+    for f in prog.library_funcs():
         for e in f.calls(lambda e: e.base_callee() in ("Pistache::Queue::popSafe", "Pistache::Queue::pop", "Pistache::PollableQueue::pop")):
             fld = (e.get("recv") or {}).get("f")
             if fld in qfields:
@@ -190,7 +192,7 @@ def run(ck):
                   ("consumer can stop draining with items left: exit at block %s without the null test" % (bad[0].block if bad else "-")))
 
     # tail written only in pop / ctor
-    for f in prog.funcs.values():
+    for f in prog.library_funcs():
         for e in f.events("assign"):
             lf = strip_tmpl(e["lhs"].get("f") or "")
             if lf == "Pistache::Queue::tail":
